@@ -6,8 +6,8 @@ import Props.C15_Get
 
 `smf.MetaX(args)` followed by `m.GetMetaX(&a, …)` (any of the pointers nil) — both as translated from the source on
 every run — returns `true` and leaves the arguments in exactly the variables behind the non-nil pointers: channel, port,
-SMPTE offset, time signature (power-of-two denominators up to 128), meter and key signature (0..7 accidentals).
-(Texts, sequencer data, sequence numbers and tempo: the constructor side is tied in `C15_Ctor`, the accessor side goes
+SMPTE offset, time signature (power-of-two denominators up to 128), meter, key signature (0..7 accidentals) and sequence
+number. (Texts, sequencer data and tempo: the constructor side is tied in `C15_Ctor`, the accessor side goes
 through `bytes.NewReader` / `binary.Write` / floats and stays differential.)
 -/
 namespace Midi.C15
@@ -81,5 +81,16 @@ theorem code_roundtrip_MetaKey (k n : Nat) (isMajor isFlat : Bool) (hn : n ≤ 7
   rw [code_MetaKey k isMajor n isFlat (by omega)]
   show smf.Message.GetMetaKeySig (metaKey k isMajor n isFlat) _ _ _ _ _ _ _ _ = _
   rw [code_GetMetaKeySig _ (key_bytes k n isMajor isFlat hn), hg]
+
+theorem seqno_bytes (n : Nat) : ∀ x ∈ metaSequenceNo n, x < 256 := by
+  intro x hx
+  simp [metaSequenceNo, metaMessage, be16, Vlq.encode, Vlq.tailLE] at hx
+  rcases hx with h | h | h | h | h <;> (try subst h) <;> omega
+
+theorem code_roundtrip_MetaSequenceNo (n : Nat) (h : n < 65536) (sn : Bool) (s0 : Nat) :
+    (smf.MetaSequenceNo n >>= fun m => smf.Message.GetMetaSeqNumber m sn s0) = .ok (true, sel sn s0 n) := by
+  rw [code_MetaSequenceNo]
+  show smf.Message.GetMetaSeqNumber (metaSequenceNo n) sn s0 = _
+  rw [code_GetMetaSeqNumber _ (seqno_bytes n), seqno_roundtrip n h]
 
 end Midi.C15
